@@ -2,6 +2,7 @@ package c18
 
 import (
 	"context"
+	"errors"
 	"fmt"
 	"math/rand"
 	"sync"
@@ -267,6 +268,12 @@ func parsigdbProbe(pc *probe, k signedKind, ver eth2spec.DataVersion) {
 	}
 	pc.phases++
 
+	// ---- hand-overs that fail: subscriber errors, expired duty, dead context
+	if pc.aliasingEstablished() {
+		return
+	}
+	parsigdbFailedHandover(pc, ctx, duty, meta, threshold, sets, expectThr)
+
 	// ---- concurrent: share i is stored by goroutine i (plus a duplicate of its neighbour's share)
 	if pc.aliasingEstablished() {
 		return
@@ -512,5 +519,65 @@ func sigaggProbe(pc *probe, k signedKind, ver eth2spec.DataVersion) {
 		pc.inconclusive("sigagg subscribers got %d deliveries from %d concurrent calls", len(dels), g)
 	}
 	pc.checkFan(f, dels, cinputs, expect, "after the concurrent phase")
+	pc.phases++
+}
+
+// parsigdbFailedHandover: StoreInternal/StoreExternal calls that return an error (a subscriber
+// fails), drop their input (expired duty) or get a dead context; the caller scribbles its set after
+// every call. The threshold output that a later share triggers, and a re-store of the pristine
+// shares, must still see exactly what was handed in. (Both calls run on the caller's goroutine, so
+// they cannot return while a dependency holds them: there is no early-return window here.)
+func parsigdbFailedHandover(pc *probe, ctx context.Context, duty core.Duty, meta parsigdb.MemDBMetadata, threshold int,
+	sets []core.ParSignedDataSet, expectThr func(*delivery) string,
+) {
+	dl := newDeadliner()
+	db := parsigdb.NewMemDB(threshold, dl, meta)
+	thrF := &fan{pc: pc, name: "threshold fan-out", mutator: -1}
+	subErr := errors.New("harness: subscriber failed")
+	db.SubscribeInternal(func(context.Context, core.Duty, core.ParSignedDataSet) error { return subErr })
+	db.SubscribeThreshold(func(_ context.Context, _ core.Duty, set map[core.PubKey][]core.ParSignedData) error {
+		thrF.recv(0, set)
+		return subErr
+	})
+	variant := []string{"internal-subscriber-error", "duty-expired", "cancelled-before"}[pc.rng.Intn(3)]
+	pc.r.Count("failed_handover_probes:parsigdb/"+variant, 1)
+	pc.r.Count("failed_handover_probes", 1)
+	inputs := map[string][]alias.Range{}
+	handIn := func(name string, set core.ParSignedDataSet, call func(in core.ParSignedDataSet) error) error {
+		in, _ := pc.fresh(set).(core.ParSignedDataSet)
+		err := pc.call(name, func() error { return call(in) })
+		inputs[name] = pc.reach(in)
+		pc.scribble(in)
+
+		return err
+	}
+	dead, cancel := context.WithCancel(ctx)
+	cancel()
+	switch variant {
+	case "internal-subscriber-error":
+		if err := handIn("StoreInternal whose subscriber fails", sets[0], func(in core.ParSignedDataSet) error { return db.StoreInternal(ctx, duty, in) }); err == nil {
+			pc.anomaly("error-swallowed", "StoreInternal returned nil although its subscriber failed")
+		}
+	case "duty-expired":
+		dl.armExpired()
+		_ = handIn("StoreExternal of an expired duty", sets[0], func(in core.ParSignedDataSet) error { return db.StoreExternal(ctx, duty, in) })
+		_ = handIn("StoreExternal of share 1", sets[0], func(in core.ParSignedDataSet) error { return db.StoreExternal(ctx, duty, in) })
+	default:
+		_ = handIn("StoreExternal with a cancelled context", sets[0], func(in core.ParSignedDataSet) error { return db.StoreExternal(dead, duty, in) })
+	}
+	_ = handIn("StoreExternal of share 2", sets[1], func(in core.ParSignedDataSet) error { return db.StoreExternal(ctx, duty, in) })
+	err3 := handIn("StoreExternal of share 3 whose threshold subscriber fails", sets[2], func(in core.ParSignedDataSet) error { return db.StoreExternal(ctx, duty, in) })
+	dels := thrF.snapshot()
+	if len(dels) != 1 {
+		pc.inconclusive("failed hand-over (%s): %d threshold deliveries, want 1 (last error %v)", variant, len(dels), err3)
+		return
+	}
+	pc.checkFan(thrF, dels, inputs, expectThr, "after failed / cancelled hand-overs ("+variant+") whose inputs were scribbled")
+	for i := 0; i < threshold; i++ {
+		in, _ := pc.fresh(sets[i]).(core.ParSignedDataSet)
+		if err := pc.call("re-store", func() error { return db.StoreExternal(ctx, duty, in) }); err != nil {
+			pc.anomaly("store-kept-mutated-object", fmt.Sprintf("storing pristine share %d again after failed hand-overs (%s) failed: %v", i+1, variant, err))
+		}
+	}
 	pc.phases++
 }
